@@ -229,17 +229,22 @@ func New(seed uint64, adj [][]bool) (*Net, error) {
 }
 
 // Close stops the services.  Kad.Close waits 5 s for a manage loop that was never started
-// (kademlia.Start is not called: the topology is set by Connected), so it runs in the background.
+// (kademlia.Start is not called: the topology is set by Connected), so it runs in the background;
+// the databases (4 MiB write buffers each) are closed right away so that memory does not pile up
+// when many networks are built in a row — Kad.Close's final metrics flush then just gets an error.
 func (n *Net) Close() {
 	n.cancel()
 	for _, nd := range n.Nodes {
+		for _, c := range nd.closers {
+			_ = c.Close()
+		}
 		go func(nd *Node) {
+			defer func() { _ = recover() }()
 			_ = nd.Kad.Close()
-			for _, c := range nd.closers {
-				_ = c.Close()
-			}
 		}(nd)
 	}
+	n.Nodes = nil
+	n.Soup = nil
 }
 
 // Index of an overlay address (-1 if it is not a node of this network).
